@@ -550,6 +550,7 @@ void runConfig(V::Ctx &ctx, const Config &cfg)
         V::count("states", r2.states + 1);
         V::count("states_root_phase", r2.states + 1);
         V::count("transitions", r2.transitions);
+        V::count("transitions:" + cfg.name, r2.transitions);
         V::count("violating_transitions", r2.violating);
         V::outcome(r2.violating ? "root-with-violation" : "root-explored");
         V::end_case();
@@ -562,6 +563,8 @@ void runConfig(V::Ctx &ctx, const Config &cfg)
         e.explore(f, depth, nullptr);
         V::count("states", e.states);
         V::count("transitions", e.transitions);
+        V::count("transitions:" + cfg.name, e.transitions);
+        V::count("states:" + cfg.name, e.states);
         V::count("violating_transitions", e.violating);
         V::outcome("model-alternatives<=" + std::to_string(e.maxAlts));
         if (e.cut) V::count("subtrees_cut_by_deadline");
@@ -576,10 +579,10 @@ void body(V::Ctx &ctx)
 {
     std::vector<Config> cfgs;
     //                     name       funcs    args       when(ticks)   weights  advance  depthQ depthT rootDepth
-    cfgs.push_back(mkConfig("full",   {1, 2}, {1, 2, 0}, {0, 1, 2},    {0, 1},  {1, 2},  4,     5,     2));
+    cfgs.push_back(mkConfig("full",   {1, 2}, {1, 2, 0}, {0, 1, 2},    {0, 1},  {1, 2},  3,     4,     2));
     cfgs.push_back(mkConfig("cancel", {1, 2}, {1, 2, 0}, {0, 2},       {0},     {2},     5,     6,     2));
-    cfgs.push_back(mkConfig("time",   {1},    {1, 2},    {0, 1, 2, 3}, {0, 1},  {1, 2},  5,     6,     2));
-    cfgs.push_back(mkConfig("dup",    {1},    {1},       {0, 1, 2},    {0, 1},  {1, 2},  6,     8,     3));
+    cfgs.push_back(mkConfig("time",   {1},    {1, 2},    {0, 1, 2, 3}, {0, 1},  {1, 2},  4,     5,     2));
+    cfgs.push_back(mkConfig("dup",    {1},    {1},       {0, 1, 2},    {0, 1},  {1, 2},  6,     7,     3));
     for (const Config &c : cfgs)
         runConfig(ctx, c);
     V::count("impl_ops_executed", gStats.implOps);
